@@ -44,7 +44,7 @@ def hostile(spec: dict, rng) -> list[str]:  # noqa: ANN001
     feats = []
     x = lambda: rng.choice(variables)  # noqa: E731
     k = lambda: rng.choice(params)  # noqa: E731
-    for kind in rng.sample(["shared", "permuted", "same_name", "dup_args", "sqrt", "prefix_collision", "ia_variable", "same_name_coef", "mirror_same_name", "same_name_other_arity", "module_state"], rng.randint(1, 3)):
+    for kind in rng.sample(["shared", "permuted", "same_name", "dup_args", "sqrt", "prefix_collision", "ia_variable", "same_name_coef", "mirror_same_name", "same_name_other_arity", "module_state", "same_name_assignments"], rng.randint(1, 3)):
         if kind == "shared":
             comps.append({"kind": "derived", "name": "hs1", "fn": L(tr.t_div), "args": [x(), k()]})
             comps.append({"kind": "derived", "name": "hs2", "fn": L(tr.t_div), "args": [k(), x()]})
@@ -90,6 +90,12 @@ def hostile(spec: dict, rng) -> list[str]:  # noqa: ANN001
         elif kind == "ia_variable":
             comps.append({"kind": "variable", "name": "hiv", "ia": {"fn": L(tr.t_mul), "args": [k(), x()]}})
             comps.append({"kind": "reaction", "name": "hivr", "fn": L(tr.t_ma1), "args": [k(), "hiv"], "stoich": {"hiv": -1.0}})
+        elif kind == "same_name_assignments":
+            # initial assignments of a variable and of two parameters through different functions that share a name and an arity
+            comps.append({"kind": "variable", "name": "hav", "ia": {"fn": L(tr.t_add), "args": [k(), k()]}})
+            comps.append({"kind": "parameter", "name": "hap", "ia": {"fn": L(tb.t_add), "args": [k(), k()]}})
+            comps.append({"kind": "parameter", "name": "haq", "ia": {"fn": L(tr.t_add), "args": [k(), k()]}})
+            comps.append({"kind": "reaction", "name": "har", "fn": L(tr.t_ma2), "args": ["hap", "hav", "haq"], "stoich": {"hav": -1.0}})
         elif kind == "same_name_coef":
             s = x()
             comps.append({"kind": "reaction", "name": "hc1", "fn": L(tr.t_ma1), "args": [k(), s], "stoich": {s: {"fn": L(tr.t_half), "args": [k()]}}})
